@@ -7,6 +7,39 @@ fn main() {
     use std::collections::VecDeque;
     let args: Vec<String> = std::env::args().collect();
     if args.len() < 2 { eprintln!("usage: replay <harness> [hexbytes,...]"); std::process::exit(2); }
+    if args[1] == "--sweep" {
+        // replay --sweep <runs> <harness> [<harness> ...]: run each harness body natively on `runs` generated inputs (pattern mode of
+        // vk::sym); a run whose inputs violate an `assume` is skipped. Output: one SWEEP line per harness.
+        let runs: u64 = args[2].parse().unwrap();
+        let reg = vk::registry();
+        let mut bad = false;
+        std::panic::set_hook(Box::new(|_| {}));
+        for name in &args[3..] {
+            let Some((_, f)) = reg.iter().find(|(n, _)| n == name) else { println!("SWEEP harness={name} outcome=unknown"); continue };
+            let (mut valid, mut invalid) = (0u64, 0u64);
+            let mut failed: Option<(u64, String, String)> = None;
+            for r in 0..runs {
+                vk::sym::PATTERN.with(|p| p.set(Some(r)));
+                vk::sym::DRAWN.with(|d| d.borrow_mut().clear());
+                let res = std::panic::catch_unwind(|| f());
+                match res {
+                    Ok(()) => valid += 1,
+                    Err(e) => {
+                        let msg = e.downcast_ref::<String>().cloned().or_else(|| e.downcast_ref::<&str>().map(|s| s.to_string())).unwrap_or_default();
+                        if msg.contains("REPLAY-ASSUMPTION-VIOLATED") || msg.starts_with("REPLAY:") { invalid += 1; continue; }
+                        let vals = vk::sym::DRAWN.with(|d| d.borrow().iter().map(|v| v.iter().map(|b| format!("{b:02x}")).collect::<String>()).collect::<Vec<_>>().join(","));
+                        failed = Some((r, vals, msg));
+                        break;
+                    }
+                }
+            }
+            match failed {
+                None => println!("SWEEP harness={name} outcome=holds valid={valid} invalid={invalid}"),
+                Some((r, vals, msg)) => { bad = true; println!("SWEEP harness={name} outcome=VIOLATED run={r} values={vals} message={msg:?}"); }
+            }
+        }
+        std::process::exit(if bad { 1 } else { 0 });
+    }
     let name = &args[1];
     let mut q = VecDeque::new();
     if args.len() > 2 && !args[2].is_empty() {
